@@ -1,7 +1,7 @@
 (* C12 - Every shuffle is a permutation, for every iterator in flight.  The random generator is an oracle:
    whatever permutation / choice numpy produces is a universally quantified argument. *)
 From Coq Require Import List Arith Bool Permutation.
-Require Import LD.Shuffle LD.ShuffleProofs LD.ShuffleFreeze LD.ShuffleFreezeProofs LD.ShuffleCopies LD.ShuffleCopiesProofs.
+Require Import LD.Shuffle LD.ShuffleProofs LD.ShuffleFreeze LD.ShuffleFreezeProofs LD.ShuffleCopies LD.ShuffleCopiesProofs LD.LocalIter LD.LocalIterProofs.
 Require LD.Ref.
 Import ListNotations.
 
@@ -104,3 +104,25 @@ Proof. exact copies_alias_refuted. Qed.
 Print Assumptions C12_plain_copies_do_not_interact.
 Print Assumptions C12_reachable_objects_hold_permutations.
 Print Assumptions C12_plain_copy_alias_refuted.
+
+(* buffer-local shuffle, iterators in flight (LocalIter.v: every next() of every iterator is a step; each iterator owns its
+   buffer): for EVERY history - any number of iterators over the same dataset, started at any time, advanced in any order, any
+   oracle values - what an iterator has delivered plus what it still holds is a permutation of the examples; so an exhausted
+   iterator has delivered every example exactly once and an iterator in flight has delivered none twice *)
+Theorem C12_local_iterators_conserve : forall B xs ops, 1 <= B -> Forall (lop_ok B) ops -> Forall (liter_inv B xs) (lrun B xs ops).
+Proof. exact local_iterators_conserve. Qed.
+Theorem C12_local_iterator_exhausted_is_perm : forall B xs ops it st, 1 <= B -> Forall (lop_ok B) ops ->
+  nth_error (lrun B xs ops) it = Some st -> lexhausted st -> Permutation (lout st) xs.
+Proof. exact local_iterator_exhausted_is_perm. Qed.
+Theorem C12_local_iterator_in_flight_nodup : forall B xs ops it st, 1 <= B -> Forall (lop_ok B) ops -> NoDup xs ->
+  nth_error (lrun B xs ops) it = Some st -> NoDup (lout st).
+Proof. exact local_iterator_in_flight_nodup. Qed.
+(* the variant with ONE buffer per dataset object (what the seeded changes C12 / C12i do) is refuted *)
+Theorem C12_local_shared_buffer_refuted :
+  exists B xs ops, 1 <= B /\ Forall (lop_ok B) ops /\ NoDup xs /\
+    exists rest tl_ out, nth_error (siters (lrun_shared B xs ops)) 0 = Some (rest, tl_, out) /\ ~ NoDup out.
+Proof. exact local_shared_buffer_refuted. Qed.
+Print Assumptions C12_local_iterators_conserve.
+Print Assumptions C12_local_iterator_exhausted_is_perm.
+Print Assumptions C12_local_iterator_in_flight_nodup.
+Print Assumptions C12_local_shared_buffer_refuted.
